@@ -5,6 +5,8 @@ package clientsets
 import (
 	"sync"
 	"time"
+
+	gatewayclientset "github.com/kubewharf/kubegateway/pkg/client/kubernetes"
 )
 
 // Virtual time for the readiness hysteresis: setLeaderStatus reads time.Now()
@@ -45,4 +47,12 @@ func VerifForget(c ClientSets, shard int) {
 	if st := verifStatus(c, shard); st != nil {
 		verifStamp.Delete(st)
 	}
+}
+
+// VerifSetClient makes client the (cached) client of the leader of shard, so that ClientFor returns it
+// without creating a network client.
+func VerifSetClient(c ClientSets, shard int, server string, client gatewayclientset.Interface) {
+	cs := c.(*clientSets)
+	cs.clientsCache.Store(server, &clientCache{expire: time.Now().Add(24 * time.Hour), client: client})
+	cs.leaderEndpoints.Store(shard, server)
 }
